@@ -419,3 +419,31 @@ func VH_C03_selfNested() {
 	vAssert(s.visits == levels && t.visits == 1 && u.visits == wantU, "flow-follows-the-transition-table")
 	vCover("self-nested")
 }
+
+// a flow used as a node ends where its own table ends - at an unconnected pair or at a pair
+// connected to nil (possibly one that had a target before) - and the enclosing flow routes on the
+// action of the node it ended at, exactly as for a plain node
+func VH_C03_nestedEnds() {
+	vUnwind(8)
+	act := vNondet[Action]("innerAction")
+	vAssume(act != "" && act != DefaultAction)
+	a := &vSimpleNode{act: act}
+	never := &vSimpleNode{act: "never"}
+	g := NewFlow(a)
+	switch vChoice("ending", 3) {
+	case 1:
+		vCover("inner-flow-ends-at-a-nil-connection")
+		g.Connect(a, act, nil)
+	case 2:
+		vCover("inner-flow-ends-at-a-connection-cut-by-nil")
+		g.Connect(a, act, never).Connect(a, act, nil)
+	}
+	x, y := &vSimpleNode{act: "end"}, &vSimpleNode{act: "end"}
+	f := NewFlow(g)
+	f.Connect(g, act, x).Connect(g, DefaultAction, y)
+	err := f.Run(vNewCtx(), NewSharedStore())
+	vAssert(err == nil, "flow-follows-the-transition-table")
+	vAssert(a.visits == 1 && never.visits == 0, "flow-ends-exactly-where-the-table-ends")
+	vAssert(x.visits == 1 && y.visits == 0, "visited-node-is-the-one-the-table-determines")
+	vCover("nested-ends")
+}
